@@ -799,7 +799,9 @@ class Contractor:
                 if check_zero and float(factor) == 0.0:
                     return 0.0, float("-inf")
                 exponent = exponent + do("log10", factor, like=backend)
-                p_array = p_array / factor
+                # an all-zero intermediate has factor == 0: keep it as zeros with
+                # exponent -inf (value 0) rather than 0 / 0 = nan (branchless)
+                p_array = p_array / (factor + (factor == 0))
 
             # insert the new intermediate array
             temps[p] = p_array
